@@ -1090,11 +1090,11 @@ def cmd_report(a):
     L = []
     w = L.append
     head = res[0].get("diff", "") and subprocess.run(["git", "-C", REPO, "rev-parse", "--short", "HEAD"], stdout=subprocess.PIPE).stdout.decode().strip()
-    w("# Mutation sweep of the pdf-rs verification framework\n")
-    w("Driver: `tools/mutate.py` (seed 20260929, library at `%s`, framework branch `b/mut`, quick tier, check seed 20260927).  "
+    w("# " + a.title + "\n")
+    w(("Driver: `tools/mutate.py` (seed 20260929, library at `%s`, framework branch `" + subprocess.run(["git", "-C", ROOT, "rev-parse", "--abbrev-ref", "HEAD"], stdout=subprocess.PIPE).stdout.decode().strip() + "`, quick tier, check seed 20260927).  "
       "A mutant is **detected** when at least one relevant `bin/vp check Cxx` exits 1, **survived** otherwise; relevant = every property whose "
-      "`anchors.files` names the mutated file, plus C01 and C14 for files under `parser/`, `object/`, `enc.rs`, `font.rs`, `crypt.rs`, `file.rs`, `backend.rs`, `xref.rs`.  "
-      "The unchanged tree was checked first in all three worker worktrees: all 20 checks exit 0 (`mutation/baseline.json`).\n" % head)
+      "`anchors.files` names the mutated file" + (" or that `EXTRA_MAP` in tools/mutate.py adds for it" if USE_EXTRA_MAP and a.art_prefix != "mutation" else "") + ", plus C01 and C14 for files under `parser/`, `object/`, `enc.rs`, `font.rs`, `crypt.rs`, `file.rs`, `backend.rs`, `xref.rs`.  "
+      "The unchanged tree was checked first in all three worker worktrees: all 20 checks exit 0 (`" + a.art_prefix + "/baseline.json`).\n") % head)
     w("## 1. Totals\n")
     w("| | mutants |\n|---|---|")
     w("| generated (sites enumerated over 23 anchored files) | %d |" % len(load_mutants()))
@@ -1116,7 +1116,7 @@ def cmd_report(a):
       "Detection rate over the non-equivalent mutants (detected / (detected + gaps + undemonstrated)): **%.1f %%**.\n"
       % (nG, nE, nU, 100.0 * len(det) / max(1, len(det) + nG + nU)))
     if allp:
-        w("Every gap was run a second time against **all 20 checks** (`mutation/results_allprops.jsonl`): %d of the %d gaps are detected by a property "
+        w("Every gap was run a second time against **all 20 checks** (`" + a.art_prefix + "/results_allprops.jsonl`): %d of the %d gaps are detected by a property "
           "that `properties.jsonl` does not map to the mutated file (a gap of the file → property map, not of the checks); %d are detected by no check at all.  "
           "With the complete suite run on every mutant the detection rate over non-equivalent mutants would be (%d + %d) / %d = **%.1f %%**.\n"
           % (len(map_gaps), len(gaps), len(gaps) - len(map_gaps), len(det), len(map_gaps), len(det) + nG + nU, 100.0 * (len(det) + len(map_gaps)) / max(1, len(det) + nG + nU)))
@@ -1197,7 +1197,7 @@ def cmd_report(a):
     w("\n## 5. Survivors\n")
     w("One paragraph per survivor.  **EQUIVALENT (a)** = no behaviour change at all (dead code, performance, message text); **EQUIVALENT (b)** = behaviour changes only in "
       "functionality none of the 20 statements speaks about, and no panic/hang is introduced; **GAP** = a property statement is violated on an input of its domain, "
-      "demonstrated by a Rust test that passes on the unchanged crate and fails on the mutant (`mutation/demos/mut_NNNN.rs`).  Diffs: `mutation/survivors/NNNN.diff`.\n")
+      "demonstrated by a Rust test that passes on the unchanged crate and fails on the mutant (`%s/demos/mut_NNNN.rs`).  Diffs: `%s/survivors/NNNN.diff`.\n" % (a.art_prefix, a.art_prefix))
     for r in surv:
         d = ana.get(r["n"])
         change = [l for l in r["diff"].split("\n") if (l.startswith("-") or l.startswith("+")) and not l.startswith(("---", "+++"))]
@@ -1215,7 +1215,7 @@ def cmd_report(a):
             if cb is not None:
                 w("  *All 20 checks on this mutant:* " + ("detected by **%s** (not mapped to `%s` in properties.jsonl)." % (", ".join(cb), r["file"]) if cb else "no check detects it."))
             dm = d.get("demo") or {}
-            w("  *Demo:* `mutation/demos/%s` — unchanged: %s; mutant: %s.  *Why missed:* %s  *Proposal:* %s" % (
+            w("  *Demo:* `" + a.art_prefix + "/demos/%s` — unchanged: %s; mutant: %s.  *Why missed:* %s  *Proposal:* %s" % (
                 os.path.basename(dm.get("test", "?")), dm.get("original", "?"), str(dm.get("mutant", "?"))[:300], d.get("why_missed", ""), d.get("proposal", "")))
         w("")
 
@@ -1237,6 +1237,41 @@ def cmd_report(a):
     print("wrote", os.path.join(OUT, "REPORT.md"), "survivors", len(surv), "analysed", sum(1 for r in surv if r["n"] in ana), "gaps", nG)
 
 
+def cmd_cumulative(a):
+    """totals and per-property table over several rounds (markdown on stdout)"""
+    tot, pp = {}, {}
+    verd = {"GAP": 0, "EQUIVALENT": 0, "other": 0}
+    for d in a.rounds:
+        for l in open(os.path.join(d, "results.jsonl")):
+            if not l.strip():
+                continue
+            r = json.loads(l)
+            tot[r["outcome"]] = tot.get(r["outcome"], 0) + 1
+            if r.get("tests"):
+                for p, c in r["checks"].items():
+                    q = pp.setdefault(p, [0, 0, 0, 0])
+                    q[0] += 1
+                    if c["exit"] == 1:
+                        q[1] += 1
+                        q[2 if c["concrete"] else 3] += 1
+            if r["outcome"] == "survived":
+                f = os.path.join(d, "analysis", "%04d.json" % r["n"])
+                v = json.load(open(f)).get("verdict") if os.path.exists(f) else None
+                verd[v if v in verd else "other"] += 1
+    n = sum(tot.values())
+    passing = tot.get("detected", 0) + tot.get("survived", 0)
+    print("| | all rounds |\n|---|---|")
+    print("| run | %d |\n| not compiling | %d |\n| killed by the repository's own tests | %d |\n| apply-failed / driver errors | %d |" % (
+        n, tot.get("not-compiling", 0), tot.get("killed-by-tests", 0), n - passing - tot.get("not-compiling", 0) - tot.get("killed-by-tests", 0)))
+    print("| **compiled and test-passing** | **%d** |\n| detected | %d (%.1f %%) |\n| survived | %d |" % (passing, tot.get("detected", 0), 100.0 * tot.get("detected", 0) / max(1, passing), tot.get("survived", 0)))
+    print("| survivors: equivalent / gaps / unanalysed | %d / %d / %d |" % (verd["EQUIVALENT"], verd["GAP"], verd["other"]))
+    print("| detection over non-equivalent mutants | %.1f %% |" % (100.0 * tot.get("detected", 0) / max(1, tot.get("detected", 0) + verd["GAP"] + verd["other"])))
+    print("\n| property | run | exit 1 | rate | concrete | proof/tie only |\n|---|---|---|---|---|---|")
+    for p in sorted(pp):
+        q = pp[p]
+        print("| %s | %d | %d | %.0f %% | %d | %d |" % (p, q[0], q[1], 100.0 * q[1] / q[0], q[2], q[3]))
+
+
 def main():
     ap = argparse.ArgumentParser()
     sub = ap.add_subparsers(dest="cmd", required=True)
@@ -1251,13 +1286,14 @@ def main():
     b = sub.add_parser("baseline"); b.add_argument("--workers", required=True)
     s = sub.add_parser("show"); s.add_argument("n")
     sub.add_parser("stats")
-    sub.add_parser("report")
+    rp = sub.add_parser("report"); rp.add_argument("--art-prefix", default="mutation"); rp.add_argument("--title", default="Mutation sweep of the pdf-rs verification framework")
+    cu = sub.add_parser("cumulative"); cu.add_argument("rounds", nargs="+", help="DIR holding results.jsonl and analysis/NNNN.json, one per round")
     ap.add_argument("--no-extra-map", action="store_true")
     a = ap.parse_args()
     if a.no_extra_map:
         global USE_EXTRA_MAP
         USE_EXTRA_MAP = False
-    {"gen": cmd_gen, "run": cmd_run, "baseline": cmd_baseline, "show": cmd_show, "stats": cmd_stats, "report": cmd_report}[a.cmd](a)
+    {"gen": cmd_gen, "run": cmd_run, "baseline": cmd_baseline, "show": cmd_show, "stats": cmd_stats, "report": cmd_report, "cumulative": cmd_cumulative}[a.cmd](a)
 
 
 if __name__ == "__main__":
